@@ -689,6 +689,66 @@ int main(int argc, char** argv) {
                     ctx.count("guest_movp_mem");
                     ctx.seen("nt", fmt("guest-movp-mem:%s->%s", Region(w), Region(e.w)));
                 }
+            } else if (g.chance(1, 3)) { // ---------------- fetch of a cell that a guest store has just rewritten, inside ONE Run call
+                // code lives in the data bank (program word 0x20000 + 0x10000*z + a is data word a):
+                //   seq:  P: mov r1,[r2] (r2 -> P+1)   P+1: nop            Run(2): the second instruction must be the stored one
+                //   rep:  P-1: rep #2   P: mov r1,[r2] (r2 -> P itself)     Run(4): repetitions 2 and 3 must be the stored one
+                // the stored instruction is mov r1,[r4] with r4 -> witness cell b
+                const bool rep = g.chance(1, 2);
+                const u16 I1 = 0x1820 | 2, I2 = 0x1820 | 4;
+                u16 a = 0, b = 0;
+                bool found = false;
+                for (int tries = 0; tries < 64 && !found; ++tries) {
+                    a = (u16)g.range(2, 0xFFFC);
+                    b = (u16)g.range(2, 0xFFFC);
+                    found = true;
+                    for (int d = -1; d <= 1; ++d)
+                        if (M.in_window((u16)(a + d)) || M.wrap_zone((u16)(a + d)) || (u16)(a + d) == b)
+                            found = false;
+                    if (M.in_window(b) || M.wrap_zone(b))
+                        found = false;
+                }
+                if (!found)
+                    continue;
+                const u32 P = M.data_word(a), wb = M.data_word(b);
+                const u32 target = rep ? P : P + 1, start = rep ? P - 1 : P;
+                if (M.word(wb) == I2)
+                    poke(wb, (u16)~I2);
+                if (rep)
+                    poke(P - 1, 0x0C02);
+                poke(P, I1);
+                if (!rep)
+                    poke(P + 1, 0x0000);
+                opname = rep ? "guest-fetch-after-store:rep" : "guest-fetch-after-store:seq";
+                log(fmt("%s code@%05x witness [%04x]", opname.c_str(), start, b));
+                if (bad)
+                    break;
+                Teakra::RegisterState& r = t.GetRegisterState();
+                r = Teakra::RegisterState();
+                r.pc = start;
+                r.r[1] = I2;
+                r.r[2] = rep ? a : (u16)(a + 1);
+                r.r[4] = b;
+                rr = Classify([&] { t.Run(rep ? 4 : 2); });
+                ctx.count("guest_instructions", rep ? 4 : 2);
+                if (rr.outcome != OK) {
+                    fail("outcome:guest-fetch-after-store", rr.what);
+                } else {
+                    M.set_word(target, I2);
+                    u16 got = (u16)(raw[2 * wb] | (raw[2 * wb + 1] << 8));
+                    if (got != I2)
+                        fail(fmt("fetch:stale-after-guest-store:%s", rep ? "rep" : "seq"),
+                             fmt("program word 0x%05x was rewritten by the guest to %04x (mov r1,[r4]) and read back so by every host view, "
+                                 "but the following fetch of that word did not execute it: witness cell [%04x] holds %04x",
+                                 target, I2, b, got));
+                    M.set_word(wb, I2);
+                    if (r.pc != P + 1 + (rep ? 0 : 1))
+                        fail("fetch:pc", fmt("after %s: pc is 0x%05x", opname.c_str(), r.pc));
+                }
+                verify_cell(target);
+                verify_cell(wb);
+                ctx.count("fetch_after_store_probes");
+                ctx.seen("nt", fmt("fetch-after-store:%s:%s", rep ? "rep" : "seq", Region(target)));
             } else { // ---------------- instruction fetch probe: mov ##imm16, rK
                 unsigned k = (unsigned)g.below(6);
                 u16 imm = (u16)g.bits(16);
